@@ -1,5 +1,6 @@
 import Enc.Model.Thrift
 import Enc.Spec.Thrift
+import Enc.Lemmas.ThriftSpec
 /-!
 # C13 — thrift bytes follow the binary and compact protocol specifications
 Property theorems only. `Spec.Thrift` is the reference (written from the Apache specifications).
@@ -61,5 +62,31 @@ theorem compact_map_header (k v : Spec.Thrift.TT) (n : Nat) :
     simp only [this, Bool.false_eq_true, if_false]
     congr 2
     cases k <;> cases v <;> decide
+
+/-! ## bytes = specification (proofs in Enc/Lemmas/ThriftSpec*.lean)
+
+Universe `ok = tyOK ∧ valOK`: bool, signed integer kinds, string, binary, lists, sets, maps, structs, pointers, named
+types at any nesting; ids positive and distinct (Go panics otherwise); well-typed values in range; nil pointers and
+collections allowed everywhere. Excluded: float fields (known finding: big-endian compact doubles) and enum fields of a
+kind other than int32 (known finding). -/
+
+/-- **MAIN (compact protocol).** For every type and value of the universe, what the encoder writes is byte for byte
+what the Apache compact-protocol specification prescribes: zig-zag varints, field headers with the id-delta short
+form, bools folded into the type nibble, list/set headers with the short form below 15, the one-byte empty map. -/
+theorem encode_compact_eq_spec (ty : Ty) (v : Val) (h : Lemmas.ThriftSpec.ok ty v = true) :
+    Model.Thrift.encode .compact ty v = Spec.Thrift.encode .compact ty v :=
+  Lemmas.ThriftSpec.encode_compact_eq_spec ty v h
+
+/-- **Binary protocol, modulo the known finding.** The binary writers produce the specification's encoding with two
+substitutions and nothing else: the compact type-code table instead of the binary one, and a three-byte stop field
+instead of one byte (`encB code stop` is the specification's binary encoder with those two as parameters;
+`encB_spec`: with the specification's table and stop byte it IS `Spec.Thrift.encode`). -/
+theorem encode_binary_eq_spec_mod (s : Bool) (ty : Ty) (v : Val) (h : Lemmas.ThriftSpec.ok ty v = true) :
+    Model.Thrift.encode (.binary s) ty v = Lemmas.ThriftSpec.encB Spec.Thrift.cmpCode [0, 0, 0] ty v :=
+  Lemmas.ThriftSpec.encode_binary_eq_spec_mod s ty v h
+
+theorem encB_is_the_specification (s : Bool) (ty : Ty) (v : Val) :
+    Lemmas.ThriftSpec.encB Spec.Thrift.binCode [0] ty v = Spec.Thrift.encode (.binary s) ty v :=
+  Lemmas.ThriftSpec.encB_spec s ty v
 
 end Enc.Props.C13
